@@ -2,6 +2,7 @@ package pac
 
 import (
 	"bytes"
+	"errors"
 
 	"github.com/jcmturner/rpc/v2/mstypes"
 )
@@ -44,6 +45,9 @@ func (k *UPNDNSInfo) Unmarshal(b []byte) (err error) {
 	k.Flags, err = r.Uint32()
 	if err != nil {
 		return
+	}
+	if int(k.UPNOffset)+int(k.UPNLength) > len(b) || int(k.DNSDomainNameOffset)+int(k.DNSDomainNameLength) > len(b) {
+		return errors.New("UPN_DNS_INFO offset and length fields point outside the buffer")
 	}
 	ub := mstypes.NewReader(bytes.NewReader(b[k.UPNOffset : k.UPNOffset+k.UPNLength]))
 	db := mstypes.NewReader(bytes.NewReader(b[k.DNSDomainNameOffset : k.DNSDomainNameOffset+k.DNSDomainNameLength]))
